@@ -82,7 +82,9 @@ def run_convert(spec=None, probes=None, label='', factor=1, extra_files=(), same
             out_dir = type(src)(os.path.relpath(str(src), os.getcwd()))
         else:
             out_dir = src if same_dir else d / 'alf'
-        m = load_model(params)
+        m0 = load_model(params)
+        m0.close()
+        m = load_model(params)       # second open: reads whatever the first one cached on disk
         # hashed after loading: load_model itself may add the inverse whitening matrix (see C04)
         before = dsgen.sha1_dir(src)
         res['src_view'] = model_view(m)
